@@ -1,6 +1,8 @@
 """The workspace space shared by C03 (analysis totality) and C17 (range validity): multi-file
 workspaces (no include cycles) over generated programs, all their prefixes, token mutations,
 semantic stress patterns, non-ASCII/CRLF injection and the vendored corpus."""
+import re
+
 from . import gen
 
 PRELUDE = ("class A; class B<int x, int y = 1> { int f = x; } class Foo { int v1; string _t; } class Bar : Foo { let v1 = 2; }\n"
@@ -124,6 +126,18 @@ def workspaces(rng, quick):
         k = rng.randrange(len(parts))
         parts[k] = parts[k] + rng.choice(WIDE)
         out.append(({"/main.td": rng.choice(WIDE) + ";".join(parts).replace("\n", rng.choice(["\n", "\r\n", "\r"])) + rng.choice(WIDE)}, "/main.td", "wide"))
+    # a closing delimiter (or `;`, `=`, `...`) typed as its non-ASCII look-alike: the construct is left open and the character
+    # right behind it is multi-byte - positions computed "one past the node" or "behind the token that must follow" land inside it
+    alike = {"}": "\uff5d", "]": "\uff3d", ")": "\uff09", ">": "\uff1e", ";": "\uff1b", "=": "\uff1d", ",": "\uff0c", "...": "\u2026", "-": "\u2013", ":": "\uff1a"}
+    lookbase = [t for t in texts if len(t) < 600]
+    for t in (STRESS + lookbase[: (40 if quick else 600)]):
+        spots = [(m.start(), m.group(0)) for m in re.finditer(r"\.\.\.|[\]})>;=,:-]", t)]
+        if not spots:
+            continue
+        for at, what in (rng.sample(spots, min(len(spots), 3 if quick else 12))):
+            out.append(({"/main.td": t[:at] + alike[what] + t[at + len(what):]}, "/main.td", "lookalike"))
+            if rng.random() < 0.3:
+                out.append(({"/main.td": t[:at] + rng.choice(["\u00e9", "\U0001F642", "\u65e5"]) + t[at + len(what):]}, "/main.td", "lookalike"))
     # multi-file: chains, diamonds, missing files, files in sub-directories (no cycles)
     for _ in range(40 if quick else 600):
         a, b, c = (rng.choice(texts) for _ in range(3))
